@@ -160,7 +160,14 @@ static int t_mpn_mul1 (const char *f, int budget)
           else { L lo = (L) p; X[i] = V0[i] - lo; c = (L) (p >> 64) + (V0[i] < lo); }
         }
       L *rp = inplace ? U : Rr;
-      cy = !strcmp (f, "mpn_mul_1") ? mpn_mul_1 (rp, U, n, v) : !strcmp (f, "mpn_addmul_1") ? mpn_addmul_1 (rp, U, n, v) : mpn_submul_1 (rp, U, n, v);
+      L OV[2 * MAXN]; const L *srcp = U;
+      if (!strcmp (f, "mpn_mul_1") && it % 3 == 1)
+        { /* the manual permits rp <= up with overlap: destination `off` limbs below the source inside one buffer */
+          int off = 1 + rnd64 () % n; memcpy (OV + off, U0, n * sizeof (L)); rp = OV; srcp = OV + off; inplace = 2 + off;
+          if (it % 2) v = (L) 1 << (1 + rnd64 () % 63);
+          c = 0; for (int i = 0; i < n; i++) { u128 p = (u128) U0[i] * v + c; X[i] = (L) p; c = (L) (p >> 64); }
+        }
+      cy = !strcmp (f, "mpn_mul_1") ? mpn_mul_1 (rp, srcp, n, v) : !strcmp (f, "mpn_addmul_1") ? mpn_addmul_1 (rp, U, n, v) : mpn_submul_1 (rp, U, n, v);
       if (cy != c || memcmp (rp, X, n * sizeof (L)))
         { failed (f); printf (" n=%d v=%#lx inplace=%d", n, (unsigned long) v, inplace); show ("u", U0, n); show ("r0", V0, n); show ("got", rp, n); show ("want", X, n); printf (" ret=%#lx want=%#lx\n", (unsigned long) cy, (unsigned long) c); return 1; }
     }
@@ -352,18 +359,19 @@ static int t_mpz_div (const char *f, int budget)
           else if (fl) { mpz_sub_ui (wq, wq, 1); mpz_add (wr, wr, d); }
           else { mpz_add_ui (wq, wq, 1); mpz_sub (wr, wr, d); }
         }
-      int al = rnd64 () % 4; mpz_t nn, dd; mpz_init_set (nn, n); mpz_init_set (dd, d);
-      mpz_ptr pn = n, pd = d; int useq = strstr (f, "_q") != 0, user = strstr (f, "_r") || strstr (f, "qr") || md;
-      if (!strcmp (f + 8, "qr")) { mpz_set (q, n); mpz_set (r, d); if (al == 1) pn = q, mpz_set (q, n); if (al == 2) { pd = r; } if (al == 3) { pn = r; mpz_set (r, n); } }
-      if (!strcmp (f + 8, "qr")) { if (pn == q) mpz_set (q, nn); if (pd == r) mpz_set (r, dd); if (pn == r) mpz_set (r, nn); }
-      mpz_ptr out = (useq && strcmp (f + 8, "qr")) ? q : r;
-      if (strcmp (f + 8, "qr")) { if (al == 1) { mpz_set (out, nn); pn = out; } else if (al == 2) { mpz_set (out, dd); pd = out; } }
+      int al = rnd64 () % 5; mpz_t nn, dd; mpz_init_set (nn, n); mpz_init_set (dd, d);
+      int isqr = !strcmp (f + 8, "qr"), useq = isqr || !strcmp (f + 8, "q"), user = isqr || !strcmp (f + 8, "r") || md;
+      mpz_ptr pn = n, pd = d;
+      /* every permitted identification of an output with an input: n==q, n==r, d==q, d==r */
+      if (al == 1 && useq) pn = q; else if (al == 2 && user) pn = r; else if (al == 3 && useq) pd = q; else if (al == 4 && user) pd = r;
+      if (pn != n) mpz_set (pn, nn);
+      if (pd != d) mpz_set (pd, dd);
       if (!strcmp (f, "mpz_fdiv_qr")) mpz_fdiv_qr (q, r, pn, pd); else if (!strcmp (f, "mpz_cdiv_qr")) mpz_cdiv_qr (q, r, pn, pd);
       else if (!strcmp (f, "mpz_fdiv_q")) mpz_fdiv_q (q, pn, pd); else if (!strcmp (f, "mpz_cdiv_q")) mpz_cdiv_q (q, pn, pd);
       else if (!strcmp (f, "mpz_fdiv_r")) mpz_fdiv_r (r, pn, pd); else if (!strcmp (f, "mpz_cdiv_r")) mpz_cdiv_r (r, pn, pd);
       else mpz_mod (r, pn, pd);
       int ok = 1;
-      if (!strcmp (f + 8, "qr") || (useq && strcmp (f + 8, "qr"))) ok = ok && mpz_cmp (q, wq) == 0;
+      if (useq) ok = ok && mpz_cmp (q, wq) == 0;
       if (user) ok = ok && mpz_cmp (r, wr) == 0;
       if (!ok) { failed (f); printf (" alias=%d", al); show_z ("n", nn); show_z ("d", dd); show_z ("q", q); show_z ("r", r); show_z ("want_q", wq); show_z ("want_r", wr); printf ("\n"); return 1; }
       mpz_clear (q); mpz_clear (r); mpz_clear (n); mpz_clear (d); mpz_clear (tq); mpz_clear (tr); mpz_clear (wq); mpz_clear (wr); mpz_clear (nn); mpz_clear (dd);
@@ -400,6 +408,83 @@ static int t_raw (const char *f, int budget)
   printf ("PASS %d\n", budget); return 0;
 }
 
+static long live_blocks;
+static void *cnt_alloc (size_t n) { live_blocks++; return malloc (n); }
+static void *cnt_realloc (void *p, size_t o, size_t n) { return realloc (p, n); }
+static void cnt_free (void *p, size_t n) { live_blocks--; free (p); }
+static int t_raw_leak (int budget)
+{
+  mp_set_memory_functions (cnt_alloc, cnt_realloc, cnt_free);
+  FILE *fp = fopen ("/dev/full", "w");
+  if (!fp) { printf ("PASS 0 (no /dev/full)\n"); return 0; }
+  setvbuf (fp, 0, _IONBF, 0);
+  for (int it = 0; it < 50; it++)
+    {
+      mpz_t x; mk_mpz (x, 4);
+      long before = live_blocks;
+      size_t r = mpz_out_raw (fp, x);
+      if (r != 0 || live_blocks != before)
+        { failed ("mpz_out_raw"); show_z ("x", x); printf (" failing write: returned=%zu, blocks still allocated after the call: %ld (must be 0)\n", r, live_blocks - before); return 1; }
+      mpz_clear (x);
+    }
+  fclose (fp);
+  printf ("PASS 50\n"); return 0;
+}
+static void mk_mpq (mpq_t q, int maxn)
+{
+  mpq_init (q); mpz_t a, b; mk_mpz (a, maxn); mk_mpz (b, maxn);
+  if (mpz_sgn (b) == 0) mpz_set_ui (b, 1 + rnd64 () % 5);
+  mpz_set (mpq_numref (q), a); mpz_set (mpq_denref (q), b); mpq_canonicalize (q);
+  if (rnd64 () % 3 == 0) { mpz_realloc2 (mpq_numref (q), 64 * (mpz_size (mpq_numref (q)) + 1)); mpz_realloc2 (mpq_denref (q), 64 * (mpz_size (mpq_denref (q)) + 3)); }
+  mpz_clear (a); mpz_clear (b);
+}
+static int q_canon (const mpq_t q)
+{
+  mpz_t g; mpz_init (g); mpz_gcd (g, mpq_numref (q), mpq_denref (q));
+  int ok = mpz_sgn (mpq_denref (q)) > 0 && mpz_cmp_ui (g, 1) == 0 && (mpz_sgn (mpq_numref (q)) != 0 || mpz_cmp_ui (mpq_denref (q), 1) == 0);
+  int sn = mpq_numref (q)->_mp_size, sd = mpq_denref (q)->_mp_size;
+  ok = ok && abs (sn) <= mpq_numref (q)->_mp_alloc && abs (sd) <= mpq_denref (q)->_mp_alloc && (sn == 0 || mpq_numref (q)->_mp_d[abs (sn) - 1] != 0) && mpq_denref (q)->_mp_d[abs (sd) - 1] != 0;
+  mpz_clear (g); return ok;
+}
+static void show_q (const char *nm, const mpq_t q) { gmp_printf (" %s=%Qd(num alloc %d, den alloc %d)", nm, q, mpq_numref (q)->_mp_alloc, mpq_denref (q)->_mp_alloc); }
+static int t_mpq (const char *f, int budget)
+{
+  for (int it = 0; it < budget / 10 + 1; it++)
+    {
+      mpq_t r, a, b, a0, b0; mk_mpq (r, 3); mk_mpq (a, 3); mk_mpq (b, 3);
+      int two = !strcmp (f, "mpq_mul") || !strcmp (f, "mpq_div") || !strcmp (f, "mpq_add") || !strcmp (f, "mpq_sub");
+      int al = rnd64 () % (two ? 5 : 2);
+      mpq_ptr pa = a, pb = b;
+      if (al == 1) pa = r; else if (al == 2) pb = r; else if (al == 3) pb = pa; else if (al == 4) { pa = r; pb = r; }
+      if (!strcmp (f, "mpq_div") && mpq_sgn (pb) == 0) mpq_set_si (pb, 3, 7);
+      if (!strcmp (f, "mpq_inv") && mpq_sgn (pa) == 0) mpq_set_si (pa, -3, 7);
+      mpq_init (a0); mpq_init (b0); mpq_set (a0, pa); mpq_set (b0, pb);
+      mpz_t x, y; mpz_init (x); mpz_init (y);
+      int ok = 1;
+      if (!strcmp (f, "mpq_inv")) { mpq_inv (r, pa); mpz_mul (x, mpq_numref (r), mpq_numref (a0)); mpz_mul (y, mpq_denref (r), mpq_denref (a0)); ok = mpz_cmp (x, y) == 0; }
+      else if (!strcmp (f, "mpq_neg")) { mpq_neg (r, pa); mpz_neg (x, mpq_numref (a0)); ok = mpz_cmp (x, mpq_numref (r)) == 0 && mpz_cmp (mpq_denref (a0), mpq_denref (r)) == 0; }
+      else if (!strcmp (f, "mpq_abs")) { mpq_abs (r, pa); mpz_abs (x, mpq_numref (a0)); ok = mpz_cmp (x, mpq_numref (r)) == 0 && mpz_cmp (mpq_denref (a0), mpq_denref (r)) == 0; }
+      else if (!strcmp (f, "mpq_set")) { mpq_set (r, pa); ok = mpz_cmp (mpq_numref (a0), mpq_numref (r)) == 0 && mpz_cmp (mpq_denref (a0), mpq_denref (r)) == 0; }
+      else
+        { /* r = a op b  <=>  cross-multiplied integer identity; and r canonical */
+          mpz_t n1, d1, n2, d2, lhs, rhs; mpz_init (lhs); mpz_init (rhs);
+          mpz_init_set (n1, mpq_numref (a0)); mpz_init_set (d1, mpq_denref (a0)); mpz_init_set (n2, mpq_numref (b0)); mpz_init_set (d2, mpq_denref (b0));
+          if (!strcmp (f, "mpq_mul")) { mpq_mul (r, pa, pb); mpz_mul (x, n1, n2); mpz_mul (y, d1, d2); }
+          else if (!strcmp (f, "mpq_div")) { mpq_div (r, pa, pb); mpz_mul (x, n1, d2); mpz_mul (y, d1, n2); }
+          else { mpz_mul (x, n1, d2); mpz_mul (y, n2, d1); if (!strcmp (f, "mpq_add")) { mpq_add (r, pa, pb); mpz_add (x, x, y); } else { mpq_sub (r, pa, pb); mpz_sub (x, x, y); } mpz_mul (y, d1, d2); }
+          mpz_mul (lhs, mpq_numref (r), y); mpz_mul (rhs, mpq_denref (r), x);          /* num(r)/den(r) == x/y */
+          ok = mpz_cmp (lhs, rhs) == 0;
+          mpz_clear (n1); mpz_clear (d1); mpz_clear (n2); mpz_clear (d2); mpz_clear (lhs); mpz_clear (rhs);
+        }
+      ok = ok && q_canon (r);
+      if (ok && pa != r) ok = mpq_equal (pa, a0) && q_canon (pa);
+      if (ok && two && pb != r) ok = mpq_equal (pb, b0);
+      if (!ok) { failed (f); printf (" alias=%d", al); show_q ("a", a0); if (two) show_q ("b", b0); show_q ("got", r); printf (" canonical_and_well_formed=%d\n", q_canon (r)); return 1; }
+      mpq_clear (r); mpq_clear (a); mpq_clear (b); mpq_clear (a0); mpq_clear (b0); mpz_clear (x); mpz_clear (y);
+    }
+  printf ("PASS %d\n", budget / 10 + 1); return 0;
+}
+
 int main (int argc, char **argv)
 {
   if (argc < 4) { fprintf (stderr, "usage: native <function> <seed> <budget>\n"); return 2; }
@@ -416,7 +501,8 @@ int main (int argc, char **argv)
   if (!strcmp (f, "mpz_cmp") || !strcmp (f, "mpz_cmpabs")) return t_mpz_cmp (f, budget);
   if (!strncmp (f, "mpz_fdiv", 8) || !strncmp (f, "mpz_cdiv", 8) || !strcmp (f, "mpz_mod")) return t_mpz_div (f, budget);
   if (!strncmp (f, "mpz_cmp", 7) || !strncmp (f, "mpz_fits", 8) || !strncmp (f, "mpz_get", 7) || !strncmp (f, "mpz_set_", 8)) return t_mpz_c11 (f, budget);
-  if (!strcmp (f, "raw")) return t_raw (f, budget);
+  if (!strcmp (f, "raw")) { int r1 = t_raw (f, budget); return r1 ? r1 : t_raw_leak (budget); }
+  if (!strncmp (f, "mpq_", 4)) return t_mpq (f, budget);
   printf ("no native test for %s\n", f);
   return 3;
 }
